@@ -176,6 +176,7 @@ fn nav_view<'a, P: PType>(
     nav: u32,
     out: &mut Vec<Viol>,
 ) -> (Option<TrieViewMut<'a, P, u32>>, Option<GK>) {
+    let uni_width = P::WIDTH;
     let p: P = mkp(k);
     let nk = norm(k);
     let site = NAV_NAMES[nav as usize];
@@ -199,21 +200,48 @@ fn nav_view<'a, P: PType>(
         _ => unreachable!(),
     };
     let prop = if nav == 0 || nav >= 4 { "C11" } else { "C12" };
+    // the entries that the expected view has to address (sides: judged on entries, not on position,
+    // because the property does not prescribe where a side view is positioned)
+    let side: Option<GK> = if nav >= 4 {
+        let right = nav == 5 || nav == 7;
+        if nk.1 < uni_width {
+            let b = if right { 1u128 << (127 - nk.1 as u32) } else { 0 };
+            Some((nk.0 | b, nk.1 + 1))
+        } else {
+            None
+        }
+    } else {
+        None
+    };
     match (&v, want) {
         (None, None) => {}
         (Some(v), Some(wk)) => {
             let got = norm(v.prefix().raw());
-            expect!(out, got == wk, prop, site, "view-at-wrong-position", "query {:x?}: view positioned at {:x?}, expected {:x?}", k, got, wk);
+            if nav >= 4 {
+                let ok = side.map(|s| covers(s, got) && model.under(s) == model.under(got)).unwrap_or(false);
+                expect!(out, ok, prop, site, "view-at-wrong-position", "query {:x?}: side view positioned at {:x?} does not address the entries of that side", k, got);
+            } else {
+                expect!(out, got == wk, prop, site, "view-at-wrong-position", "query {:x?}: view positioned at {:x?}, expected {:x?}", k, got, wk);
+            }
         }
         (None, Some(wk)) => {
-            // for find/view_at, None is a violation only if the model has entries there
-            let has_entries = !model.under(nk).is_empty();
-            if nav >= 2 || has_entries {
+            // None is a violation only if the model has entries that the view would have to address
+            let has_entries = match nav {
+                0 | 1 => !model.under(nk).is_empty(),
+                2 | 3 => true,
+                _ => side.map(|s| !model.under(s).is_empty()).unwrap_or(false),
+            };
+            if has_entries {
                 out.push(Viol::new(prop, site, "view-missing", format!("query {:x?}: no view, expected one at {:x?}", k, wk)));
             }
         }
         (Some(v), None) => {
-            out.push(Viol::new(prop, site, "view-unexpected", format!("query {:x?}: got a view at {:x?}, expected none", k, v.prefix().raw())));
+            let got = norm(v.prefix().raw());
+            // a view where the arena has no node: a violation unless it is an (empty) view on the right side
+            let harmless = nav >= 4 && side.map(|s| covers(s, got) && model.under(got).is_empty()).unwrap_or(false);
+            if !harmless {
+                out.push(Viol::new(prop, site, "view-unexpected", format!("query {:x?}: got a view at {:x?}, expected none", k, v.prefix().raw())));
+            }
         }
     }
     (v, want)
